@@ -1228,6 +1228,37 @@ func runServer(r *common.Run, c srvCase, class string) error {
 			r.Fail("server-mechanism-offered", "stepped-not-advertised", lines, fmt.Sprintf("mechanism %q is stepped but was not advertised (%q)", t.used, advertised))
 		}
 	}
+	// an <auth/> that names a mechanism the receiving side did not offer ends the exchange, with
+	// <invalid-mechanism/>, whatever came before (independent of the Authn bit)
+	for i := 0; res.called > 0 && i < consumed && i < len(c.peer); i++ {
+		if c.peer[i][0] != 'A' && c.peer[i][0] != 'R' {
+			break // the exchange ends at this element anyway
+		}
+		if c.peer[i][0] != 'A' || !strings.Contains(c.peer[i], "/") {
+			continue
+		}
+		name := decName(c.peer[i][1:strings.Index(c.peer[i], "/")])
+		offered := false
+		for _, a := range advertised {
+			if a == name && name != "" {
+				offered = true
+			}
+		}
+		if offered {
+			continue
+		}
+		lastSent := ""
+		if len(sent) > 0 {
+			lastSent = sent[len(sent)-1]
+		}
+		switch {
+		case consumed > i+1:
+			r.Fail("server-unoffered-mechanism-refused", "exchange-continued", lines, fmt.Sprintf("<auth mechanism=%q/> was not offered, yet the receiving side went on to read another element", name))
+		case errc != "write" && res.panicV == "" && lastSent != "fail/invalid-mechanism":
+			r.Fail("server-unoffered-mechanism-refused", "not-refused", lines, fmt.Sprintf("<auth mechanism=%q/> was not offered and was answered with %q instead of <invalid-mechanism/>", name, lastSent))
+		}
+		break
+	}
 	sessAuthn := res.state&xmpp.Authn != 0
 	if authn != sessAuthn {
 		r.Fail("server-state-follows-mask", fmt.Sprintf("mask=%v;state=%v", authn, sessAuthn), lines, "the session's Authn bit differs from the mask returned by Negotiate")
